@@ -399,12 +399,12 @@ Qed.
 (* ControlStream                                                        *)
 (* ------------------------------------------------------------------ *)
 
-Lemma cspec_app : forall a v0 b, cspec v0 (a ++ b) = cspec (cspec v0 a) b.
+Lemma cspec_app : forall (V : Type) (a : list (cop V)) v0 b, cspec v0 (a ++ b) = cspec (cspec v0 a) b.
 Proof.
   induction a as [|[v|] a IH]; intros v0 b; simpl; [reflexivity|apply IH|apply IH].
 Qed.
 
-Lemma crun_cspec_run : forall ops v0 pre, crun (cspec v0 pre) ops = cspec_run v0 pre ops.
+Lemma crun_cspec_run : forall (V : Type) (ops : list (cop V)) v0 pre, crun (cspec v0 pre) ops = cspec_run v0 pre ops.
 Proof.
   induction ops as [|[v|] r IH]; intros v0 pre; simpl.
   - reflexivity.
@@ -412,8 +412,8 @@ Proof.
   - f_equal. rewrite <- IH, cspec_app. reflexivity.
 Qed.
 
-Theorem crun_eq_cspec_run : forall v0 ops, crun v0 ops = cspec_run v0 [] ops.
-Proof. intros v0 ops. apply (crun_cspec_run ops v0 []). Qed.
+Theorem crun_eq_cspec_run : forall (V : Type) (v0 : V) ops, crun v0 ops = cspec_run v0 [] ops.
+Proof. intros V v0 ops. apply (crun_cspec_run V ops v0 []). Qed.
 
 (* ------------------------------------------------------------------ *)
 (* Corollaries                                                          *)
@@ -529,27 +529,27 @@ Proof.
   intros zero ops. rewrite run_eq_spec_run. apply keep_never_stops_spec.
 Qed.
 
-Lemma cspec_repeat_next : forall k v, cspec v (repeat CNext k) = v.
+Lemma cspec_repeat_next : forall (V : Type) k (v : V), cspec v (repeat CNext k) = v.
 Proof. induction k as [|k IH]; intro v; simpl; [reflexivity|apply IH]. Qed.
 
-Corollary control_stream_last_value_spec : forall v0 pre v k,
+Corollary control_stream_last_value_spec : forall (V : Type) (v0 : V) pre v k,
   cspec v0 (pre ++ [CSet v] ++ repeat CNext k) = v.
 Proof.
-  intros v0 pre v k. rewrite cspec_app. simpl. apply cspec_repeat_next.
+  intros V v0 pre v k. rewrite cspec_app. simpl. apply cspec_repeat_next.
 Qed.
 
-Lemma crun_app : forall a v0 b, crun v0 (a ++ b) = crun v0 a ++ crun (cspec v0 a) b.
+Lemma crun_app : forall (V : Type) (a : list (cop V)) v0 b, crun v0 (a ++ b) = crun v0 a ++ crun (cspec v0 a) b.
 Proof.
   induction a as [|[v|] a IH]; intros v0 b; simpl; [reflexivity|apply IH|].
   f_equal. apply IH.
 Qed.
 
-Lemma crun_repeat_next : forall k v, crun v (repeat CNext k) = repeat v k.
+Lemma crun_repeat_next : forall (V : Type) k (v : V), crun v (repeat CNext k) = repeat v k.
 Proof. induction k as [|k IH]; intro v; simpl; [reflexivity|]. f_equal. apply IH. Qed.
 
 (* on the model: after "value = v", every read returns v until the next assignment *)
-Corollary control_stream_last_value : forall v0 pre v k,
+Corollary control_stream_last_value : forall (V : Type) (v0 : V) pre v k,
   crun v0 (pre ++ [CSet v] ++ repeat CNext k) = crun v0 pre ++ repeat v k.
 Proof.
-  intros v0 pre v k. rewrite crun_app. f_equal. simpl. apply crun_repeat_next.
+  intros V v0 pre v k. rewrite crun_app. f_equal. simpl. apply crun_repeat_next.
 Qed.
